@@ -41,14 +41,93 @@ Inductive obs :=
        error, 2 panicked), the class of the same call run alone on a fresh codec, and whether it
        returned exactly what it returns alone (encode output bytes / decoded message / error text) *)
 
-(* depth, type universe, calls per thread, schedule (incl. the drain), the hook each
-   scheduled thread was at after its step, the results of the completed calls *)
-Inductive c10case :=
-| C10Case (k : N) (g : graph) (calls : list (list name)) (sched : list N) (trace : list N) (res : list (list obs)).
+(* ---- exposed oneofs -------------------------------------------------------------------- *)
+(* A proto oneof with (j5.ext.v1.oneof).expose of message M is reflected as a schema of its
+   own, named M_<oneof>.  messageProperties registers it through refTo BEFORE the fields of M
+   and links it at once (refto.lookup, refto.insert, ref.linked — exactly what the machine
+   does for a reference to a type without references); the member fields are then processed
+   in M's own field loop, in field order, and appended to the oneof's properties.  So in the
+   type universe handed to the machine M refers first to its exposed oneofs (leaf nodes),
+   then to all its field types, and the machine performs the cache operations of the real
+   build in the real order.  What a caller sees — the members grouped under the oneof
+   property, which stands where the first member stood — is this view of the machine's
+   result.  (Not modelled: the error "placeholder already exists" when the name M_<oneof>
+   is already registered, which needs a message of that very name in the same package.)
+   expo: per message, in order of declaration, (name of the oneof, position of its first
+   member among the fields of M, number of members); members are consecutive fields. *)
+Definition expo := list (name * list (name * N * N)).
 
-Definition obs_ok (d : disc) (k : nat) (g : graph) (n : name) (m : result) (o : obs) : bool :=
+Fixpoint expo_of (ex : expo) (n : name) : list (name * N * N) :=
+  match ex with
+  | [] => []
+  | (m, gs) :: r => if N.eqb m n then gs else expo_of r n
+  end.
+
+(* the oneof whose first member is field p, with its position among the oneofs of the message *)
+Fixpoint group_at (gs : list (name * N * N)) (i : nat) (p : nat) : option (nat * nat) :=
+  match gs with
+  | [] => None
+  | (_, start, len) :: r => if Nat.eqb (N.to_nat start) p then Some (i, N.to_nat len) else group_at r (S i) p
+  end.
+
+(* fields from position p on; os = the subtrees of the message's oneof cells *)
+Fixpoint assemble (fuel : nat) (gs : list (name * N * N)) (os fs : list utree) (p : nat) : list utree :=
+  match fuel with
+  | O => []
+  | S fuel' =>
+      match fs with
+      | [] => []
+      | f :: fr =>
+          match group_at gs 0 p with
+          | Some (i, len) =>
+              (match nth i os UBad with
+               | UNode o _ => UNode o (firstn len fs)      (* linked: its properties are the members *)
+               | other => other                             (* cut / not linked: nothing below it is seen *)
+               end) :: assemble fuel' gs os (skipn len fs) (p + len)
+          | None => f :: assemble fuel' gs os fr (S p)
+          end
+      end
+  end.
+
+Fixpoint regroup (ex : expo) (t : utree) : utree :=
+  match t with
+  | UNode n kids =>
+      let kids' := map (regroup ex) kids in
+      match expo_of ex n with
+      | [] => UNode n kids'
+      | gs =>
+          let e := length gs in
+          UNode n (assemble (S (length kids')) gs (firstn e kids') (skipn e kids') 0)
+      end
+  | other => other
+  end.
+
+(* the unfolding to depth k of a tree given to a greater depth *)
+Fixpoint cut (k : nat) (t : utree) {struct t} : utree :=
+  match t with
+  | UNode n kids =>
+      match k with
+      | O => UCut n
+      | S k' => UNode n (map (cut k') kids)
+      end
+  | other => other
+  end.
+
+(* what the caller sees of a result of the machine *)
+Definition view (ex : expo) (k : nat) (r : result) : result :=
+  match r with
+  | ROk t => ROk (cut k (regroup ex t))
+  | other => other
+  end.
+
+(* depth, type universe (with the exposed oneofs), calls per thread, schedule (incl. the drain), the hook
+   each scheduled thread was at after its step, the results of the completed calls *)
+Inductive c10case :=
+| C10Case (k : N) (g : graph) (ex : expo) (calls : list (list name)) (sched : list N) (trace : list N) (res : list (list obs)).
+
+Definition obs_ok (d : disc) (ex : expo) (k : nat) (g : graph) (n : name) (m : result) (o : obs) : bool :=
   match o with
-  | ORes r _ => result_eqb m r
+  | ORes r _ => result_eqb (view ex k m) r
   | OCall cls solo_cls same =>
       if result_eqb m (result_solo k g n) then
         N.eqb cls solo_cls &&
@@ -65,21 +144,21 @@ Definition obs_ok (d : disc) (k : nat) (g : graph) (n : name) (m : result) (o : 
            end
   end.
 
-Fixpoint obs_list_ok (d : disc) (k : nat) (g : graph) (ns : list name) (ms : list result) (os : list obs) : bool :=
+Fixpoint obs_list_ok (d : disc) (ex : expo) (k : nat) (g : graph) (ns : list name) (ms : list result) (os : list obs) : bool :=
   match ms, os with
   | [], [] => true
   | m :: mr, o :: or =>
       match ns with
-      | n :: nr => obs_ok d k g n m o && obs_list_ok d k g nr mr or
+      | n :: nr => obs_ok d ex k g n m o && obs_list_ok d ex k g nr mr or
       | [] => false
       end
   | _, _ => false
   end.
 
-Fixpoint threads_ok (d : disc) (k : nat) (g : graph) (calls : list (list name)) (ms : list (list result)) (os : list (list obs)) : bool :=
+Fixpoint threads_ok (d : disc) (ex : expo) (k : nat) (g : graph) (calls : list (list name)) (ms : list (list result)) (os : list (list obs)) : bool :=
   match calls, ms, os with
   | [], [], [] => true
-  | c :: cr, m :: mr, o :: or => obs_list_ok d k g c m o && threads_ok d k g cr mr or
+  | c :: cr, m :: mr, o :: or => obs_list_ok d ex k g c m o && threads_ok d ex k g cr mr or
   | _, _, _ => false
   end.
 
@@ -119,7 +198,7 @@ Fixpoint all_id_pairs (t : tid) (rs : list (tid * name * cellid)) (ms : list (li
 
 Definition c10_check_with (d : disc) (c : c10case) : bool :=
   match c with
-  | C10Case k g calls sched trace res =>
+  | C10Case k g ex calls sched trace res =>
       let k' := N.to_nat k in
       let sch := map N.to_nat sched in
       (* the forced schedules of the harness run on a real sync.Mutex with every other
@@ -128,7 +207,7 @@ Definition c10_check_with (d : disc) (c : c10case) : bool :=
          first-come-first-served hand-off policy over the machine of Conc.v *)
       let (st, tr) := hrun_trace fifo_grant d k' g calls sch in
       let rs := rets d k' g calls (expand fifo_grant d k' g sch (init calls)) in
-      nlist_eqb tr trace && threads_ok d k' g calls (results st) res &&
+      nlist_eqb tr trace && threads_ok d ex k' g calls (results st) res &&
       ids_consistent (all_id_pairs 0 rs (results st) res)
   end.
 
